@@ -1754,6 +1754,28 @@ func (ctx Ctx) refExpr(s ast.Expr) coq.Expr {
 	}
 }
 
+// valuePathRoot gives the variable a path of field selections through struct
+// values (v.a.b) starts from, or nil if the path goes through a pointer or
+// starts from something other than a variable
+func (ctx Ctx) valuePathRoot(e ast.Expr) *ast.Ident {
+	for {
+		switch x := e.(type) {
+		case *ast.Ident:
+			return x
+		case *ast.ParenExpr:
+			e = x.X
+		case *ast.SelectorExpr:
+			info, ok := ctx.getStructInfo(ctx.typeOf(x.X))
+			if !ok || info.throughPointer {
+				return nil
+			}
+			e = x.X
+		default:
+			return nil
+		}
+	}
+}
+
 func (ctx Ctx) pointerAssign(dst *ast.Ident, x coq.Expr) coq.Binding {
 	ty := ctx.typeOf(dst)
 	return coq.NewAnon(coq.StoreStmt{
@@ -1824,6 +1846,11 @@ func (ctx Ctx) assignFromTo(s ast.Node,
 		if info.throughPointer {
 			structExpr = ctx.expr(lhs.X)
 		} else {
+			if root := ctx.valuePathRoot(lhs.X); ok && root != nil && !ctx.isPtrWrapped(root) {
+				// a struct value bound by := (or a parameter, a range variable)
+				// is an immutable GooseLang value, not a location to store into
+				ctx.unsupported(s, "assignment to a field of %s, which is not declared with var", root.Name)
+			}
 			structExpr = ctx.refExpr(lhs.X)
 		}
 		if ok {
